@@ -1,4 +1,4 @@
-_OPTS = {"prop": "C24", "strata": "setop", "allow": "sort_limit,null_lit", "deny": "subquery,derived"}
+_OPTS = {"prop": "C24", "strata": "setop", "big": "small", "allow": "sort_limit,null_lit", "deny": "subquery,derived"}
 ENTRY = {
     "level": "proof",
     "families": [fam("SQL", 400, 20000, opts={"quick": _OPTS, "thorough": dict(_OPTS, sizes="tiny,small,mid")})],
@@ -11,7 +11,7 @@ ENTRY = {
                                  "SQL reference semantics IQE.Spec (ours); SQL text <-> plan correspondence is the generator's (harness/src/sqlgen)"],
     "assumptions": ["BOOLEAN and DOUBLE columns are not used as set-operation columns (the engine refuses BOOLEAN group keys; float grouping is engine-defined)",
                     "INTEGER columns are cast to BIGINT in set-operation operands (mixed-width operands hit an unrelated engine defect)"],
-    "min_tags": {"f:union": 1, "f:union_all": 1, "f:intersect": 1, "f:intersect_all": 1, "f:except": 1, "f:except_all": 1, "data:big": 8},
+    "min_tags": {"f:union": 1, "f:union_all": 1, "f:intersect": 1, "f:intersect_all": 1, "f:except": 1, "f:except_all": 1, "data:big": 4},
     "manifest": {
         "category": "proof",
         "text": "Lean theorems, for all tables: multiplicities of UNION ALL (sum), UNION (support), INTERSECT ALL (min), EXCEPT ALL (monus), INTERSECT / EXCEPT (supports) with NULLs not distinct, stated over Spec.run's bag operations with List.count; the model of the engine's semi/anti-join encoding equals the reference with all deviation switches off, and with the switches of the unchanged tree it agrees with the reference on INTERSECT ALL / EXCEPT ALL **iff** every common row is NULL-free and at most as frequent on the left (exact characterisation), on the DISTINCT forms iff every common row is NULL-free. Tie: generated set-operation statements through ExecutionContext::sql judged by Spec.acceptable; failing cases attributed only when the engine's rows equal the encoding model's answer.",
